@@ -130,6 +130,12 @@ def check_linear(run_, tables, ex, jnp, jax, rng, tier):
             sc = 1 + maxabs(want)
             if maxabs(np.asarray(jv) - want) > 1e-10 * sc or maxabs(np.asarray(jv) - np.asarray(st(jnp.asarray(v)))) > 1e-12 * sc:
                 run_.violation(dict(key, what="jvp(state) != the linear map"), {"err": maxabs(np.asarray(jv) - want)})
+            # the Jacobian is the linear map at EVERY state, the rest state and a state with an identically vanishing part included
+            for lab0, s0 in (("zero", np.zeros_like(u)), ("half zero", u * (np.arange(u.size).reshape(u.shape) % 2))):
+                jv0 = np.asarray(jax.jvp(st, (jnp.asarray(s0),), (jnp.asarray(v),))[1])
+                g0 = np.asarray(jax.vjp(st, jnp.asarray(s0))[1](jnp.asarray(w))[0])
+                if maxabs(jv0 - want) > 1e-10 * sc or maxabs(g0 - exact_evolve(ex, jnp, w, np.conj(lam * dt), D, N)) > 1e-10 * (1 + maxabs(w)):
+                    run_.violation(dict(key, what=f"jvp / vjp at the {lab0} state != the linear map"), {"err": maxabs(jv0 - want)})
             back = np.asarray(jax.vjp(st, jnp.asarray(u))[1](jnp.asarray(w))[0])
             want_b = exact_evolve(ex, jnp, w, np.conj(lam * dt), D, N)
             if maxabs(back - want_b) > 1e-10 * (1 + maxabs(want_b)):
